@@ -154,17 +154,28 @@ fn cmul(a: (f64, f64), b: (f64, f64)) -> (f64, f64) {
 }
 
 macro_rules! backend_impl {
-    ($modname:ident, $be:ty) => {
+    ($modname:ident, $be:ty, $f:ty, $maxprec:expr) => {
         mod $modname {
             use super::*;
             type BE = $be;
+            type F = $f;
+            const MAXPREC: usize = $maxprec;
+            fn to_f(x: f64) -> F {
+                <F as num_traits::NumCast>::from(x).unwrap()
+            }
+            fn of_f(x: F) -> f64 {
+                num_traits::ToPrimitive::to_f64(&x).unwrap_or(f64::NAN)
+            }
+            fn to_fv(v: &[f64]) -> Vec<F> {
+                v.iter().map(|&x| to_f(x)).collect()
+            }
             type Ct = CKKSCiphertext<Vec<u8>>;
 
             pub struct Ctx {
                 pub n: usize,
                 pub base2k: usize,
                 pub module: Module<BE>,
-                pub encoder: Encoder<f64>,
+                pub encoder: Encoder<F>,
                 pub sk: GLWESecretPrepared<DeviceBuf<BE>, BE>,
                 pub tsk: GLWETensorKeyPrepared<DeviceBuf<BE>, BE>,
                 pub rot: HashMap<i64, GLWEAutomorphismKeyPrepared<DeviceBuf<BE>, BE>>,
@@ -222,7 +233,7 @@ macro_rules! backend_impl {
                     rot.insert(k, mk(g, &mut xa, &mut xe, &mut scratch));
                 }
                 let conj = mk(-1, &mut xa, &mut xe, &mut scratch);
-                let encoder = Encoder::<f64>::new(n / 2).unwrap();
+                let encoder = Encoder::<F>::new(n / 2).unwrap();
                 Ctx { n, base2k, module, encoder, sk, tsk: tskp, rot, conj, scratch, xa, xe }
             }
 
@@ -234,22 +245,22 @@ macro_rules! backend_impl {
             }
 
             fn pt_znx(ctx: &Ctx, meta: CKKSMeta, base2k: usize, vals: &(Vec<f64>, Vec<f64>)) -> anyhow::Result<CKKSPlaintextVecZnx<Vec<u8>>> {
-                let mut rnx = CKKSPlaintextVecRnx::<f64>::alloc(ctx.n)?;
-                ctx.encoder.encode_reim(&mut rnx, &vals.0, &vals.1)?;
+                let mut rnx = CKKSPlaintextVecRnx::<F>::alloc(ctx.n)?;
+                ctx.encoder.encode_reim(&mut rnx, &to_fv(&vals.0), &to_fv(&vals.1))?;
                 let mut z = CKKSPlaintextVecZnx::alloc(Degree(ctx.n as u32), Base2K(base2k as u32), meta);
                 rnx.to_znx(&mut z)?;
                 Ok(z)
             }
-            fn pt_rnx(ctx: &Ctx, vals: &(Vec<f64>, Vec<f64>)) -> CKKSPlaintextVecRnx<f64> {
-                let mut rnx = CKKSPlaintextVecRnx::<f64>::alloc(ctx.n).unwrap();
-                ctx.encoder.encode_reim(&mut rnx, &vals.0, &vals.1).unwrap();
+            fn pt_rnx(ctx: &Ctx, vals: &(Vec<f64>, Vec<f64>)) -> CKKSPlaintextVecRnx<F> {
+                let mut rnx = CKKSPlaintextVecRnx::<F>::alloc(ctx.n).unwrap();
+                ctx.encoder.encode_reim(&mut rnx, &to_fv(&vals.0), &to_fv(&vals.1)).unwrap();
                 rnx
             }
 
             /// decrypt + decode `ct`; None if the plaintext cannot be extracted / decoded
             fn dec_slots(ctx: &mut Ctx, ct: &Ct) -> Option<(Vec<f64>, Vec<f64>)> {
                 let ld = ct.log_delta();
-                if ld == 0 || ld > 53 {
+                if ld == 0 || ld > MAXPREC {
                     return None;
                 }
                 let lb = ct.log_budget().min(30).min(120 - ld.min(120));
@@ -267,13 +278,13 @@ macro_rules! backend_impl {
                 let n = ctx.n;
                 let enc = &ctx.encoder;
                 std::panic::catch_unwind(std::panic::AssertUnwindSafe(|| {
-                    let mut rnx = CKKSPlaintextVecRnx::<f64>::alloc(n).ok()?;
+                    let mut rnx = CKKSPlaintextVecRnx::<F>::alloc(n).ok()?;
                     rnx.decode_from_znx(&z).ok()?;
                     let m = n / 2;
-                    let mut re = vec![0.0; m];
-                    let mut im = vec![0.0; m];
+                    let mut re = vec![to_f(0.0); m];
+                    let mut im = vec![to_f(0.0); m];
                     enc.decode_reim(&rnx, &mut re, &mut im).ok()?;
-                    Some((re, im))
+                    Some((re.iter().map(|&x| of_f(x)).collect(), im.iter().map(|&x| of_f(x)).collect()))
                 }))
                 .ok()
                 .flatten()
@@ -420,7 +431,7 @@ macro_rules! backend_impl {
                     ("add_cst_rnx" | "sub_cst_rnx", 7) => {
                         let (d, a) = (slot(f[1])?, slot(f[2])?);
                         let (cr, ci) = cst_vals(step, f[5] == "1", f[6] == "1");
-                        let c = CKKSPlaintextCstRnx::<f64>::new(cr, ci);
+                        let c = CKKSPlaintextCstRnx::<F>::new(cr.map(to_f), ci.map(to_f));
                         let (pd, ca) = dst_src(pool, d, a)?;
                         let pm = meta(f[3], f[4]);
                         let r = if sub {
@@ -437,7 +448,7 @@ macro_rules! backend_impl {
                     ("add_cst_rnx_assign" | "sub_cst_rnx_assign", 6) => {
                         let d = slot(f[1])?;
                         let (cr, ci) = cst_vals(step, f[4] == "1", f[5] == "1");
-                        let c = CKKSPlaintextCstRnx::<f64>::new(cr, ci);
+                        let c = CKKSPlaintextCstRnx::<F>::new(cr.map(to_f), ci.map(to_f));
                         let pm = meta(f[2], f[3]);
                         let r = if sub {
                             ctx.module.ckks_sub_pt_const_rnx_assign(&mut pool[d], &c, pm, ctx.scratch.borrow())
@@ -453,7 +464,7 @@ macro_rules! backend_impl {
                     ("add_cst_znx" | "sub_cst_znx", 7) => {
                         let (d, a) = (slot(f[1])?, slot(f[2])?);
                         let (cr, ci) = cst_vals(step, f[5] == "1", f[6] == "1");
-                        let c = CKKSPlaintextCstRnx::<f64>::new(cr, ci);
+                        let c = CKKSPlaintextCstRnx::<F>::new(cr.map(to_f), ci.map(to_f));
                         let z: CKKSPlaintextCstZnx =
                             c.to_znx_at_k(Base2K(ctx.base2k as u32), nat(f[3]), nat(f[4])).map_err(|e| err_string(&e))?;
                         let (pd, ca) = dst_src(pool, d, a)?;
@@ -469,7 +480,7 @@ macro_rules! backend_impl {
                     ("add_cst_znx_assign" | "sub_cst_znx_assign", 6) => {
                         let d = slot(f[1])?;
                         let (cr, ci) = cst_vals(step, f[4] == "1", f[5] == "1");
-                        let c = CKKSPlaintextCstRnx::<f64>::new(cr, ci);
+                        let c = CKKSPlaintextCstRnx::<F>::new(cr.map(to_f), ci.map(to_f));
                         let z: CKKSPlaintextCstZnx =
                             c.to_znx_at_k(Base2K(ctx.base2k as u32), nat(f[2]), nat(f[3])).map_err(|e| err_string(&e))?;
                         let r = if sub {
@@ -598,7 +609,7 @@ macro_rules! backend_impl {
                     ("mul_cst_rnx", 7) => {
                         let (d, a) = (slot(f[1])?, slot(f[2])?);
                         let (cr, ci) = cst_vals(step, f[5] == "1", f[6] == "1");
-                        let c = CKKSPlaintextCstRnx::<f64>::new(cr, ci);
+                        let c = CKKSPlaintextCstRnx::<F>::new(cr.map(to_f), ci.map(to_f));
                         let (pd, ca) = dst_src(pool, d, a)?;
                         let cc = (cr.unwrap_or(0.0), ci.unwrap_or(0.0));
                         let nv = map1(&vals[a], |x| cmul(x, cc));
@@ -613,7 +624,7 @@ macro_rules! backend_impl {
                     ("mul_cst_rnx_assign", 6) => {
                         let d = slot(f[1])?;
                         let (cr, ci) = cst_vals(step, f[4] == "1", f[5] == "1");
-                        let c = CKKSPlaintextCstRnx::<f64>::new(cr, ci);
+                        let c = CKKSPlaintextCstRnx::<F>::new(cr.map(to_f), ci.map(to_f));
                         let cc = (cr.unwrap_or(0.0), ci.unwrap_or(0.0));
                         let nv = map1(&vals[d], |x| cmul(x, cc));
                         vals[d] = None;
@@ -675,7 +686,7 @@ macro_rules! backend_impl {
                     ("mul_add_cst_rnx" | "mul_sub_cst_rnx", 7) => {
                         let (d, a) = (slot(f[1])?, slot(f[2])?);
                         let (cr, ci) = cst_vals(step, f[5] == "1", f[6] == "1");
-                        let c = CKKSPlaintextCstRnx::<f64>::new(cr, ci);
+                        let c = CKKSPlaintextCstRnx::<F>::new(cr.map(to_f), ci.map(to_f));
                         let (pd, ca) = dst_src(pool, d, a)?;
                         let cc = (cr.unwrap_or(0.0), ci.unwrap_or(0.0));
                         let prod = map1(&vals[a], |x| cmul(x, cc));
@@ -921,8 +932,8 @@ macro_rules! backend_impl {
                                     return Err("bad-op".to_string());
                                 }
                                 let pv: Vec<(Vec<f64>, Vec<f64>)> = (0..n).map(|i| gen_slots(5000 + step * 16 + i as u64, m, 0.2)).collect();
-                                let rs: Vec<CKKSPlaintextVecRnx<f64>> = pv.iter().map(|v| pt_rnx(ctx, v)).collect();
-                                let rr: Vec<&CKKSPlaintextVecRnx<f64>> = rs.iter().collect();
+                                let rs: Vec<CKKSPlaintextVecRnx<F>> = pv.iter().map(|v| pt_rnx(ctx, v)).collect();
+                                let rr: Vec<&CKKSPlaintextVecRnx<F>> = rs.iter().collect();
                                 let nv = sum((0..n).map(|i| zip2(&vals[ia[i]], &Some(pv[i].clone()), cmul)).collect());
                                 let (pd, cs) = dst_srcs(pool, d, &ia)?;
                                 let r = ctx.module.ckks_dot_product_pt_vec_rnx(pd, &cs, &rr, meta(rest[0], rest[1]), ctx.scratch.borrow());
@@ -935,8 +946,8 @@ macro_rules! backend_impl {
                                 }
                                 let cv: Vec<(Option<f64>, Option<f64>)> =
                                     (0..n).map(|i| cst_vals(step * 16 + i as u64, rest[2] == "1", rest[3] == "1")).collect();
-                                let cs_: Vec<CKKSPlaintextCstRnx<f64>> = cv.iter().map(|c| CKKSPlaintextCstRnx::<f64>::new(c.0, c.1)).collect();
-                                let cr: Vec<&CKKSPlaintextCstRnx<f64>> = cs_.iter().collect();
+                                let cs_: Vec<CKKSPlaintextCstRnx<F>> = cv.iter().map(|c| CKKSPlaintextCstRnx::<F>::new(c.0.map(to_f), c.1.map(to_f))).collect();
+                                let cr: Vec<&CKKSPlaintextCstRnx<F>> = cs_.iter().collect();
                                 let nv = sum((0..n)
                                     .map(|i| {
                                         let cc = (cv[i].0.unwrap_or(0.0), cv[i].1.unwrap_or(0.0));
@@ -1084,7 +1095,7 @@ macro_rules! backend_impl {
                                             dg = format!(
                                                 "{:.1}:{}:{:.1}:{}",
                                                 l,
-                                                vprec[d].min(pool[d].log_delta() as i64),
+                                                vprec[d].min(pool[d].log_delta() as i64).min(46), // the complex-number mirror is f64
                                                 if mx == 0.0 { -1074.0 } else { mx.log2() },
                                                 lb
                                             );
@@ -1121,24 +1132,28 @@ macro_rules! backend_impl {
                 let seed = kvu(t, "seed", 1) as u64;
                 let m = n / 2;
                 let r = std::panic::catch_unwind(|| -> anyhow::Result<String> {
-                    let enc = Encoder::<f64>::new(m)?;
+                    let enc = Encoder::<F>::new(m)?;
                     let v = gen_slots(seed, m, mag);
-                    let mut rnx = CKKSPlaintextVecRnx::<f64>::alloc(n)?;
-                    enc.encode_reim(&mut rnx, &v.0, &v.1)?;
-                    let mut re0 = vec![0.0; m];
-                    let mut im0 = vec![0.0; m];
-                    enc.decode_reim(&rnx, &mut re0, &mut im0)?;
+                    let mut rnx = CKKSPlaintextVecRnx::<F>::alloc(n)?;
+                    enc.encode_reim(&mut rnx, &to_fv(&v.0), &to_fv(&v.1))?;
+                    let mut re0f = vec![to_f(0.0); m];
+                    let mut im0f = vec![to_f(0.0); m];
+                    enc.decode_reim(&rnx, &mut re0f, &mut im0f)?;
+                    let re0: Vec<f64> = re0f.iter().map(|&x| of_f(x)).collect();
+                    let im0: Vec<f64> = im0f.iter().map(|&x| of_f(x)).collect();
                     let mut e0: f64 = 0.0;
                     for j in 0..m {
                         e0 = e0.max((re0[j] - v.0[j]).abs()).max((im0[j] - v.1[j]).abs());
                     }
                     let mut z = CKKSPlaintextVecZnx::alloc(Degree(n as u32), Base2K(base2k as u32), meta);
                     rnx.to_znx(&mut z)?;
-                    let mut back = CKKSPlaintextVecRnx::<f64>::alloc(n)?;
+                    let mut back = CKKSPlaintextVecRnx::<F>::alloc(n)?;
                     back.decode_from_znx(&z)?;
-                    let mut re = vec![0.0; m];
-                    let mut im = vec![0.0; m];
-                    enc.decode_reim(&back, &mut re, &mut im)?;
+                    let mut ref_ = vec![to_f(0.0); m];
+                    let mut imf = vec![to_f(0.0); m];
+                    enc.decode_reim(&back, &mut ref_, &mut imf)?;
+                    let re: Vec<f64> = ref_.iter().map(|&x| of_f(x)).collect();
+                    let im: Vec<f64> = imf.iter().map(|&x| of_f(x)).collect();
                     let mut e: f64 = 0.0;
                     for j in 0..m {
                         e = e.max((re[j] - v.0[j]).abs()).max((im[j] - v.1[j]).abs());
@@ -1156,10 +1171,11 @@ macro_rules! backend_impl {
     };
 }
 
-backend_impl!(ntt120ref, poulpy_cpu_ref::NTT120Ref);
-backend_impl!(fft64ref, poulpy_cpu_ref::FFT64Ref);
-backend_impl!(ntt120avx, poulpy_cpu_avx::NTT120Avx);
-backend_impl!(fft64avx, poulpy_cpu_avx::FFT64Avx);
+backend_impl!(ntt120ref, poulpy_cpu_ref::NTT120Ref, f64, 53);
+backend_impl!(ntt120ref128, poulpy_cpu_ref::NTT120Ref, f128::f128, 113);
+backend_impl!(fft64ref, poulpy_cpu_ref::FFT64Ref, f64, 53);
+backend_impl!(ntt120avx, poulpy_cpu_avx::NTT120Avx, f64, 53);
+backend_impl!(fft64avx, poulpy_cpu_avx::FFT64Avx, f64, 53);
 
 pub fn run(_args: &[String]) {
     std::panic::set_hook(Box::new(|info| {
@@ -1178,6 +1194,7 @@ pub fn run(_args: &[String]) {
     let mut c2: HashMap<String, fft64ref::Ctx> = HashMap::new();
     let mut c3: HashMap<String, ntt120avx::Ctx> = HashMap::new();
     let mut c4: HashMap<String, fft64avx::Ctx> = HashMap::new();
+    let mut c5: HashMap<String, ntt120ref128::Ctx> = HashMap::new();
     let stdin = std::io::stdin();
     let stdout = std::io::stdout();
     let mut out = stdout.lock();
@@ -1193,7 +1210,7 @@ pub fn run(_args: &[String]) {
         }
         let id = t[0];
         let ans = if t[1] == "roundtrip" {
-            ntt120ref::roundtrip(&t[2..])
+            if kv(&t[2..], "float") == Some("f128") { ntt120ref128::roundtrip(&t[2..]) } else { ntt120ref::roundtrip(&t[2..]) }
         } else {
             let be = kv(&t[1..], "be").unwrap_or("ntt120ref");
             let r = std::panic::catch_unwind(std::panic::AssertUnwindSafe(|| match be {
@@ -1201,6 +1218,7 @@ pub fn run(_args: &[String]) {
                 "fft64ref" => fft64ref::run_line(&mut c2, &t[1..]),
                 "ntt120avx" => ntt120avx::run_line(&mut c3, &t[1..]),
                 "fft64avx" => fft64avx::run_line(&mut c4, &t[1..]),
+                "ntt120ref128" => ntt120ref128::run_line(&mut c5, &t[1..]),
                 _ => "bad-backend".to_string(),
             }));
             match r {
